@@ -394,7 +394,11 @@ def join_vals(cx, key, a, va, b, vb, out_facts):
     if va[0] == "bool" and vb[0] == "bool":
         return V_bool([c for c in va[1] if c in vb[1]], [c for c in va[2] if c in vb[2]])
     if va[0] == "flag" and vb[0] == "flag":
-        return ("flag", va[1] or vb[1])
+        if isinstance(va[1], bool) and isinstance(vb[1], bool):
+            return ("flag", va[1] or vb[1])
+        if key[2] == "#peel" and isinstance(va[1], int) and isinstance(vb[1], int):
+            return ("flag", max(va[1], vb[1]))
+        return ("flag", "mixed")
     return UNKNOWN
 
 
@@ -698,14 +702,18 @@ def analyze(cx, fn, args, facts, want_edges=False, init_vals=None):
                             cx.hooks["assert"](cx, fn, bb, t, st, None, None, reports)
                         edge_out.append((t["target"], st))
                 elif k == "switch":
-                    dv = op_val(cx, st, t["discr"])
+                    dv0 = op_val(cx, st, t["discr"])
+                    dv = dv0
                     if dv[0] == "disc":
                         dv = st.vals.get(dv[1], UNKNOWN)
                     seen_vals = []
+                    edge_hook = cx.hooks.get("edge")
                     for val, tgt in t["targets"]:
                         val = int(val)
                         seen_vals.append(val)
                         s2 = st.copy()
+                        if edge_hook:
+                            edge_hook(cx, fn, bb, dv0, val, s2)
                         if dv[0] == "opt":
                             for c in (dv[2] if val == 1 else dv[3]):
                                 s2.add(c)
@@ -722,6 +730,8 @@ def analyze(cx, fn, args, facts, want_edges=False, init_vals=None):
                         if satisfiable(s2.facts):
                             edge_out.append((tgt, s2))
                     s2 = st.copy()
+                    if edge_hook:
+                        edge_hook(cx, fn, bb, dv0, ("not", tuple(seen_vals)), s2)
                     if dv[0] == "bool":
                         for c in (dv[1] if seen_vals == [0] else dv[2] if seen_vals == [1] else []):
                             s2.add(c)
@@ -791,9 +801,9 @@ def rvalue_val(cx, fn, st, rv, bb):
             # integer widening keeps the value; narrowing is not modelled (usize<->u64 on 64-bit is exact)
             return v
     if k == "discr":
-        if len(rv["place"]) == 1:
+        if len(rv["place"]) == 1 or all(e == "*" for e in rv["place"][1:]):
             return ("disc", rv["place"][0])
-        return UNKNOWN
+        return ("discp", tuple(str(e) for e in rv["place"]))
     if k == "un":
         v = op_val(cx, st, rv["a"])
         if rv["op"] == "PtrMetadata" and v[0] == "slice":
